@@ -119,6 +119,14 @@ Theorem qmark_err_returns_same_partial : forall ls k okp d i, (d < List.length l
 Proof. exact qmark_err_l. Qed.
 Print Assumptions qmark_err_returns_same_partial.
 
+(* ... and that transcript is a prefix of the transcript of the run in which nobody fails *)
+Theorem qmark_err_transcript_is_prefix : forall ls k z d i sel0, (d < List.length ls)%nat ->
+  existsb is_qstmt ls = false ->
+  (forall d', (d' < List.length ls)%nat -> sel0 <> (i + d')%nat) ->
+  exists rest, fst (m_chain k (PInt z) sel0 i ls) = fst (m_chain k (PInt z) (i + d) i ls) ++ rest.
+Proof. exact qmark_err_prefix_l. Qed.
+Print Assumptions qmark_err_transcript_is_prefix.
+
 (* whole programs of the fragment: Mech = Spec, any number of links, failing link anywhere or nowhere *)
 Theorem qmark_chain_refines_spec_partial : forall p, safe_q p = true -> m_run_q p = s_run_q p.
 Proof. exact chain_refines_run. Qed.
